@@ -5,7 +5,7 @@
     output of [merge]: orders non-decreasing, every order at most twice, and the deferral when
     three trees of one order meet. *)
 From Coq Require Import Permutation Lia Sorted.
-From Algo.C04 Require Import Model Spec ProofsCommon.
+From Algo.C04 Require Import Model Spec ProofsCommon ProofsBinomial.
 Open Scope nat_scope.
 
 Section Shape.
@@ -271,6 +271,40 @@ Section Shape.
         * apply Forall_app; auto.
         * apply Forall_rev. destruct e; simpl. now inversion Hbe.
     - injection H as <- <-. apply nshape_new.
+  Qed.
+
+  (** ** sizes: a binomial tree of order [o] has [2^o] nodes, so the strictly increasing root
+      orders are the positions of the one-bits of [n] *)
+  Definition sum2 (l : list nat) : nat := fold_right (fun x a => 2 ^ x + a) 0 l.
+
+  Lemma sum2_desc o : sum2 (rev (seq 0 o)) + 1 = 2 ^ o.
+  Proof.
+    induction o as [|o IH]; [reflexivity|].
+    rewrite seq_S, rev_app_distr. simpl rev. simpl app. simpl sum2. fold (sum2 (rev (seq 0 o))).
+    rewrite Nat.pow_succ_r'. lia.
+  Qed.
+
+  Lemma flat_entries_size cs :
+    Forall (fun c => length (bt_entries c) = 2 ^ ord c) cs ->
+    length (flat_map bt_entries cs) = sum2 (map ord cs).
+  Proof.
+    induction 1 as [|c cs Hc _ IH]; [reflexivity|].
+    simpl. rewrite app_length, Hc, IH. reflexivity.
+  Qed.
+
+  Lemma bshape_size t : bshape t -> length (bt_entries t) = 2 ^ ord t.
+  Proof.
+    induction t as [k v o cs IH] using btree_ind'. intros Hs. inversion Hs as [? ? ? ? Hord Hcs]; subst.
+    simpl. rewrite flat_entries_size.
+    - rewrite Hord. pose proof (sum2_desc o). lia.
+    - rewrite Forall_forall in *. intros c Hc. apply IH; auto.
+  Qed.
+
+  Lemma nshape_size h :
+    nshape h -> n_n K V h = length (entries (n_head K V h)) -> n_n K V h = sum2 (ords (n_head K V h)).
+  Proof.
+    intros [_ Hb] ->. unfold entries. apply flat_entries_size.
+    eapply Forall_impl; [|exact Hb]. intros t. apply bshape_size.
   Qed.
 
   Lemma n_merge_heaps_shape a b : nshape a -> nshape b -> nshape (n_merge_heaps K V cmp a b).
